@@ -140,8 +140,10 @@ Theorem c10_no_crash : forall fx acts s, run fx init acts = Some s -> crashed s 
 Proof. exact no_crash. Qed.
 Print Assumptions c10_no_crash.
 
-(* ... a racing Send is never blocked: one of its own steps is enabled in every reachable
-   state and decreases a measure bounded by 30, so it returns - with Ok or Err ... *)
+(* ... liveness of a racing Send, in two halves that together give termination under a
+   scheduler that is fair to the sending goroutine (neither half alone is inevitability):
+   (i) possibility - in every reachable state a step of the Send itself (or of the connection
+   set-up it is inside) is enabled and lowers a measure bounded by 30 ... *)
 Theorem c10_racers_fail_or_finish : forall fx acts s t p,
   run fx init acts = Some s -> nth_error (senders s) t = Some p -> sender_done p = false ->
   exists a s' p', step fx s a = Some s' /\ nth_error (senders s') t = Some p' /\
@@ -149,17 +151,30 @@ Theorem c10_racers_fail_or_finish : forall fx acts s t p,
 Proof. exact sender_progress. Qed.
 Print Assumptions c10_racers_fail_or_finish.
 
-(* ... and so is every connection set-up (inside connect() or the Listen callback) *)
+(* ... (ii) no interference - no step of anybody (Stop, other sends, handlers, the peer)
+   ever raises that measure; a Send can only end with Ok or Err *)
+Theorem c10_racers_measure_never_raised : forall fx s a s' t p,
+  Inv fx s -> step fx s a = Some s' -> nth_error (senders s) t = Some p ->
+  exists p', nth_error (senders s') t = Some p' /\ nmeasure (conns s') p' <= nmeasure (conns s) p.
+Proof. exact sender_measure_noninc. Qed.
+Print Assumptions c10_racers_measure_never_raised.
+
+(* every connection set-up (inside connect() or the Listen callback) has an enabled own step
+   that lowers its measure - EXCEPT a callback inside receiveServerIdentity on a connection
+   open on both sides, which waits for the peer (or, on TCP only, the read time-out); Stop
+   ends that wait by closing the connection (c10_closed_at_return_fixed) *)
 Theorem c10_setup_never_blocked : forall fx s c k,
   nth_error (conns s) c = Some k -> setting_up (setup k) = true ->
+  (setup k = IRecvId -> lopen k && popen k = false) ->
   exists a s' k', step fx s a = Some s' /\ nth_error (conns s') c = Some k' /\
                   sm (setup k') < sm (setup k) /\ senders s' = senders s.
 Proof. exact setup_progress. Qed.
 Print Assumptions c10_setup_never_blocked.
 
-(* Stop does not hang: from every reachable state in which a Stop waits in wg.Wait(), the
-   handler goroutines alone (no message, peer action or time-out) reach wg = 0 and the
-   Stop returns *)
+(* Stop does not hang, again in two halves: (i) from every reachable state in which a Stop
+   waits in wg.Wait() there IS a continuation by steps of the handler goroutines and of the
+   callbacks under negotiation alone (no message, peer action or time-out) after which the
+   Stop returns ... *)
 Theorem c10_stop_never_hangs : forall fx acts s t,
   run fx init acts = Some s -> nth_error (stops s) t = Some SWait ->
   exists hacts s' s'', Forall handler_action hacts /\ run fx s hacts = Some s' /\
@@ -167,6 +182,13 @@ Theorem c10_stop_never_hangs : forall fx acts s t,
                        stop_returned s'' = true.
 Proof. exact stop_never_hangs. Qed.
 Print Assumptions c10_stop_never_hangs.
+
+(* ... (ii) once the closed flag is set no step of anybody adds work for Stop to wait for:
+   the measure that continuation brings to zero is never raised *)
+Theorem c10_stop_work_never_grows : forall fx s a s',
+  Inv fx s -> closed s = true -> step fx s a = Some s' -> sumf hmf (conns s') <= sumf hmf (conns s).
+Proof. exact drain_measure_noninc. Qed.
+Print Assumptions c10_stop_work_never_grows.
 
 (* a further Stop after one has returned runs through and changes nothing *)
 Theorem c10_idempotent : forall fx acts s,
@@ -447,3 +469,28 @@ Example c10_start_close_example :
             ocloser s = OClosed /\ starts s = [PErr] /\ regs s = 0 /\ readers s = 0.
 Proof. exact ctor_held_code. Qed.
 Print Assumptions c10_start_close_example.
+
+(* ---- added after review ------------------------------------------------------ *)
+
+(* the [pred]s of the small models never meet a zero counter (no hidden negative WaitGroup) *)
+Theorem c10_send_close_no_underflow : forall ctm acts s,
+  wrun ctm winit acts = Some s -> reader s = RExiting -> wgw s = 1.
+Proof. exact send_close_no_underflow. Qed.
+Print Assumptions c10_send_close_no_underflow.
+
+Theorem c10_start_close_no_underflow : forall acts s i p,
+  orun false oinit acts = Some s -> nth_error (starts s) i = Some p ->
+  match p with
+  | PBound => 1 <= regs s /\ 1 <= bounds s /\ 1 <= readers s
+  | PCtor => 1 <= regs s /\ 1 <= readers s
+  | _ => True
+  end.
+Proof. exact start_close_no_underflow. Qed.
+Print Assumptions c10_start_close_no_underflow.
+
+(* the run the observations are compared with (which also keeps the connection states at the
+   instant Stop returned and rejects scripts that refer to things that do not exist) has the
+   same final state as the run of c10_exec_reachable *)
+Theorem c10_exec_full_same : forall fx tcp ms, xs (rx (exec_full fx tcp ms)) = exec fx tcp ms.
+Proof. exact exec_full_xs. Qed.
+Print Assumptions c10_exec_full_same.
